@@ -57,9 +57,144 @@ def relevant(hist, obs):
     return any(re.search(r"D\[[^\]]", o) for o in obs)
 
 
+def wake_line(version, n):
+    return f"1;255;3;0;{32 if version == '2.2' else 22};{n}\n"
+
+
+def link_loss(cls_name, version, with_error):
+    """A sleeping node, then the link to the gateway device drops and comes back (the protocol's real
+    connection_lost / connection_made), then a controller call and a request from the node before it wakes up
+    again.  Returns what left for node 1 between the loss and the wake-up (must be nothing), or a text."""
+    import mysensors.gateway_serial as gs
+    import mysensors.gateway_tcp as gt
+    from .stopwin import Conn
+    gw = {"SerialGateway": lambda: gs.SerialGateway("/dev/verif-none", protocol_version=version),
+          "AsyncSerialGateway": lambda: gs.AsyncSerialGateway("/dev/verif-none", protocol_version=version),
+          "TCPGateway": lambda: gt.TCPGateway("127.0.0.1", 5003, protocol_version=version),
+          "AsyncTCPGateway": lambda: gt.AsyncTCPGateway("127.0.0.1", 5003, protocol_version=version)}[cls_name]()
+    proto = gw.tasks.transport.protocol
+    proto.conn_lost_callback = lambda: None           # no re-dial thread / task in this session
+    conn = Conn()
+    conn.serial = conn
+    proto.transport = conn
+    out = []
+
+    def drain():
+        queue = getattr(gw.tasks, "queue", None)
+        while queue:
+            reply = gw.tasks.run_job(queue.popleft())
+            if reply:
+                out.append(reply)
+
+    def line(text):
+        reply = gw.logic(text)
+        if reply:
+            out.append(reply)
+        drain()
+    try:
+        for text in ("1;255;0;0;17;" + version + "\n", "1;0;0;0;4;dimmer\n", "1;0;1;0;3;10\n", wake_line(version, 1)):
+            line(text)
+        del out[:]
+        try:
+            proto.connection_lost(OSError(5, "Input/output error") if with_error else None)
+        except Exception:  # noqa: BLE001   (C20's business)
+            pass
+        conn2 = Conn()
+        conn2.serial = conn2
+        proto.transport = conn2
+        if hasattr(gw.tasks.transport, "protocol") and gw.tasks.transport.protocol is None:
+            gw.tasks.transport.protocol = proto
+        gw.set_child_value(1, 0, 3, "57")
+        drain()
+        line("1;0;2;0;3;\n")
+        line("1;255;3;0;6;\n")
+        written = [w.decode() for w in conn2.written]        # (the asyncio classes write at once)
+        asleep = [x for x in out + written if x.startswith("1;")]
+        del out[:]
+        line(wake_line(version, 2))
+        return asleep, list(out) + [w.decode() for w in conn2.written[len(written):]]
+    except Exception as exc:  # noqa: BLE001
+        return f"raised {type(exc).__name__}: {exc}"
+
+
+def failed_publish(flavour, version):
+    """MQTT: the publish callback fails while a sleeping node's wake-up burst goes out (the client is
+    reconnecting); then the controller sends something to another, awake node.  Returns what was published
+    for node 1 between its wake-up and its next one (must be nothing), or a text."""
+    from mysensors.gateway_mqtt import AsyncMQTTGateway, MQTTGateway
+    pubs, failing = [], [False]
+
+    def pub(topic, payload, qos, retain):
+        if failing[0]:
+            raise ConnectionError("client is reconnecting")
+        pubs.append(topic)
+    gw = (MQTTGateway if flavour == "sync" else AsyncMQTTGateway)(pub, lambda *a: None, in_prefix="in", out_prefix="out",
+                                                                  protocol_version=version)
+
+    def line(text):
+        gw.tasks.add_job(gw.logic, text)
+        queue = getattr(gw.tasks, "queue", None)
+        while queue:
+            gw.tasks.transport.send(gw.tasks.run_job(queue.popleft()))
+
+    def drain():
+        queue = getattr(gw.tasks, "queue", None)
+        while queue:
+            gw.tasks.transport.send(gw.tasks.run_job(queue.popleft()))
+    try:
+        for text in ("1;255;0;0;17;" + version + "\n", "1;0;0;0;4;dimmer\n", "1;0;1;0;3;10\n",
+                     "2;255;0;0;17;" + version + "\n", "2;0;0;0;3;lamp\n", "2;0;1;0;2;0\n", wake_line(version, 1)):
+            line(text)
+        gw.set_child_value(1, 0, 3, "57")
+        drain()
+        failing[0] = True
+        line(wake_line(version, 2))            # the burst for node 1 cannot be published
+        failing[0] = False
+        del pubs[:]
+        gw.set_child_value(2, 0, 2, "1")       # node 2 is awake: goes out at once
+        drain()
+        line("2;0;2;0;2;\n")
+        return [t for t in pubs if t.startswith("out/1/")], list(pubs)
+    except Exception as exc:  # noqa: BLE001
+        return f"raised {type(exc).__name__}: {exc}"
+
+
+def transport_events_part(res):
+    for version in ("2.0", "2.1", "2.2"):
+        for cls_name in ("SerialGateway", "AsyncSerialGateway", "TCPGateway", "AsyncTCPGateway"):
+            for with_error in (False, True):
+                got = link_loss(cls_name, version, with_error)
+                res.evaluations += 1
+                res.count("link-loss-while-asleep")
+                rep = {"op": "link-loss", "class": cls_name, "version": version, "with_error": with_error}
+                if isinstance(got, str):
+                    res.oracle_failures.append({"key": {"kind": "link-loss", "what": "raised"}, "replay": rep,
+                                                "what": f"{cls_name} {version}: {got}"})
+                elif got[0]:
+                    res.oracle_failures.append({
+                        "key": {"kind": "link-loss", "what": "sent-while-asleep"}, "replay": rep,
+                        "what": f"{cls_name} {version}: node 1 is asleep, the link drops "
+                                f"({'with' if with_error else 'without'} an error) and comes back: {got[0]} left for the "
+                                f"node before its next wake-up"})
+        for flavour in ("sync", "async"):
+            got = failed_publish(flavour, version)
+            res.evaluations += 1
+            res.count("failed-publish-while-asleep")
+            rep = {"op": "failed-publish", "flavour": flavour, "version": version}
+            if isinstance(got, str):
+                res.oracle_failures.append({"key": {"kind": "failed-publish", "what": "raised"}, "replay": rep,
+                                            "what": f"{flavour} MQTT gateway {version}: {got}"})
+            elif got[0]:
+                res.oracle_failures.append({
+                    "key": {"kind": "failed-publish", "what": "sent-while-asleep"}, "replay": rep,
+                    "what": f"{flavour} MQTT gateway {version}: the publish of node 1's wake-up burst failed; later, with "
+                            f"the node asleep again, {got[0]} were published for it (all publishes then: {got[1]})"})
+
+
 def run(tier, seed, driver):
     res = gwfam.run_family("C07", tier, seed, driver, CFG, relevant)
     kwargs_sweep(res)
+    transport_events_part(res)
     res.rule = ("histories for versions 2.0-2.2 over 3-4 nodes biased to wake-up announcements, value requests, "
                 "controller sets, reboot requests and presentation requests for sleeping nodes; non-trivial = some "
                 "node has announced smart sleep (non-empty desired map); distinct by op script")
@@ -67,6 +202,15 @@ def run(tier, seed, driver):
 
 
 def replay(payload):
+    r = payload.get("replay", {})
+    if r.get("op") == "link-loss":
+        got = link_loss(r["class"], r["version"], r["with_error"])
+        print("left for the sleeping node before / at its next wake-up:", got)
+        return 1 if isinstance(got, str) or got[0] else 0
+    if r.get("op") == "failed-publish":
+        got = failed_publish(r["flavour"], r["version"])
+        print("published for the sleeping node / everything published:", got)
+        return 1 if isinstance(got, str) or got[0] else 0
     if payload.get("replay", {}).get("op") == "kwargs":
         from .common import Result
         res = Result()
